@@ -274,6 +274,11 @@ LEAF_FAMILIES = [
      lambda on: ({}, {'vals': dict(
          (str(i), (VOBJ_TRUE if 'vobj:%d' % i in on else VOBJ_FALSE)[i])
          for i in range(4))}), 4),
+    # custom checks that are themselves written in the rule language: the
+    # constructor parses a text rule (a nested parse while the outer rule is
+    # still being read)
+    (['vnest:n0', 'vnest:n1', 'vnest:n2', 'vnest:n3'],
+     lambda on: ({}, {'roles': [l.split(':')[1] for l in on]}), 4),
 ]
 VOBJ_TRUE = ['yes', 1, [0], {'k': 0}]
 VOBJ_FALSE = ['', 0, None, []]
@@ -286,6 +291,19 @@ def _register_vobj():
         def __call__(self, target, creds, enforcer, current_rule=None):
             return creds['vals'][self.match]
     _checks.register('vobj', VObj)
+
+    from oslo_policy import _parser
+
+    class VNest(_checks.Check):
+        def __init__(self, kind, match):
+            super().__init__(kind, match)
+            self.inner = _parser.parse_rule(
+                '(role:never and role:%s) or not not role:%s' % (match,
+                                                                 match))
+
+        def __call__(self, target, creds, enforcer, current_rule=None):
+            return self.inner(target, creds, enforcer)
+    _checks.register('vnest', VNest)
 
 
 def run_S7(cx, job):
